@@ -86,3 +86,31 @@ def top_stmt(fn, node):
 def order_index(fn, node):
     t = top_stmt(fn, node)
     return fn.body.index(t) if t in fn.body else -1
+
+
+def unsafe_pops(fn):
+    """yield (loop, call, reason) for loops that remove elements from a list while walking it forwards by index
+    (or over the list itself).  Safe forms: range(len(L)-1, -1, -1), reversed(...), iterating over a copy."""
+    for lp in walk_local(fn):
+        if not isinstance(lp, (ast.For,)):
+            continue
+        targets = {n.id for n in ast.walk(lp.target) if isinstance(n, ast.Name)}
+        it = unparse(lp.iter)
+        for c in ast.walk(lp):
+            if not (isinstance(c, ast.Call) and isinstance(c.func, ast.Attribute) and c.func.attr in ('pop', 'remove') and c.args):
+                continue
+            if isinstance(c.func.value, ast.Subscript):
+                continue  # popping from an element of the container, not from the container walked
+            lst = unparse(c.func.value)
+            arg_names = {n.id for n in ast.walk(c.args[0]) if isinstance(n, ast.Name)}
+            by_index = bool(arg_names & targets) and c.func.attr == 'pop'
+            over_list = it == lst or it == 'enumerate(%s)' % lst
+            mentions = lst in it
+            if not (by_index and mentions) and not over_list:
+                continue
+            # the loop walks `lst` (by index or directly) and removes from it
+            safe = 'reversed(' in it or (isinstance(lp.iter, ast.Call) and unparse(lp.iter.func) == 'range' and len(lp.iter.args) == 3
+                                         and unparse(lp.iter.args[2]) in ('-1', '(-1)')) \
+                or it in ('list(%s)' % lst, '%s.copy()' % lst, '%s[:]' % lst)
+            if not safe:
+                yield lp, c, 'removes from %s while iterating forwards over it (%s): the element after each removed one is skipped' % (lst, it)
